@@ -553,12 +553,16 @@ BOUNDS = {
     "thorough": {
         # 1-2 sections: all 36 pairs crossed with all menus; 3 sections: 6-pair alphabet crossed with all menus, plus
         # ALL 36^3 size layouts with the two extreme directory settings (no directory at all / the largest of each)
+        # under the default and the packed header menus
         "pairs": {1: pegen.size_pairs(), 2: pegen.size_pairs(),
                   3: [[0, 5], [1, 0], [2, 3], [3, 3], [4, 1], [5, 4]]},
         "dir_menus_3sec": "all",
         "extra_3sec_full_sizes": True,
     },
 }
+
+
+EXTREME_HDRS = (0, 3)   # header menus crossed with the full 36^3 three-section size lattice (default and packed)
 
 
 def layouts_of(tier):
@@ -581,7 +585,7 @@ def specs_of_layout(lay, mode):
                     for e in range(3):
                         for r in range(3):
                             yield [ws, h, lay, i, e, r]
-            else:
+            elif h in EXTREME_HDRS:
                 yield [ws, h, lay, 0, 0, 0]
                 yield [ws, h, lay, 3, 2, 2]
 
@@ -668,6 +672,7 @@ def run(ctx):
         "bounds": {"wsize": [32, 64], "hdr_menus": list(pegen.HDR_NAMES), "sizes": list(pegen.SIZES),
                    "pair_alphabet_by_section_count": {str(k): v for k, v in b["pairs"].items()},
                    "all_36^3_three_section_layouts_with_extreme_directory_menus": b["extra_3sec_full_sizes"],
+                   "hdr_menus_for_the_36^3_part": [pegen.HDR_NAMES[h] for h in EXTREME_HDRS],
                    "import_menus": 4, "export_menus": 3, "reloc_menus": 3, "reloc_deltas": list(DELTAS)},
         "distinct_outcomes": len(layouts),
         "distinct_layouts": len(layouts),
